@@ -364,7 +364,7 @@ func showOps(ops []Op) string {
 
 // ---- generator ------------------------------------------------------------------
 
-var staticLits = []string{"a", "b", "q", "r", "users", "x.y", "a+b", "$", "%41", "A", "Users", "Q"}
+var staticLits = []string{"a", "b", "q", "r", "users", "x.y", "a+b", "$", "%41", "A", "Users", "Q", "a;b", "q;v=2", "users;all", "me@x", "q&a", "it's!"}
 
 func genCase(t *rapid.T) Case {
 	var c Case
